@@ -53,6 +53,7 @@ func c02Site(stack string) string {
 }
 
 func c02Eval(r *hx.Run, cs c02Case, dir string) {
+	r.Begin(cs)
 	content := cs.bytes()
 	path := filepath.Join(dir, "rules.yml")
 	if err := os.WriteFile(path, content, 0o644); err != nil {
@@ -120,13 +121,18 @@ func c02Eval(r *hx.Run, cs c02Case, dir string) {
 		nlines++
 	}
 	ylines := 1
+	loneCR := false
 	for i := 0; i < len(content); i++ {
-		if content[i] == '\n' || (content[i] == '\r' && (i+1 >= len(content) || content[i+1] != '\n')) {
+		if content[i] == '\n' {
 			ylines++
+		} else if content[i] == '\r' && (i+1 >= len(content) || content[i+1] != '\n') {
+			ylines++
+			loneCR = true
 		}
 	}
-	lfLines := nlines
-	nlines = max(nlines, ylines)
+	if loneCR {
+		nlines = max(nlines, ylines)
+	}
 	r.Case(fmt.Sprintf("%x|%v|%v", content, cs.Strict, cs.Thanos), len(o.res.Entries) > 0)
 	r.Count("origin:" + cs.Origin)
 	r.Count(fmt.Sprintf("strict:%v", cs.Strict))
@@ -156,7 +162,7 @@ func c02Eval(r *hx.Run, cs c02Case, dir string) {
 		}
 		if bad {
 			class := "line-range-outside-file:" + rep.Problem.Reporter
-			if ylines > lfLines {
+			if loneCR {
 				// YAML counts a lone CR as a line break, pint's reader splits on LF only: node lines and pint's own lines
 				// disagree from there on (recorded finding)
 				class = "line-range-broken-by-lone-cr"
@@ -179,9 +185,71 @@ func c02Eval(r *hx.Run, cs c02Case, dir string) {
 	}
 }
 
+// c02Binary: the same content through the real binary with the options that add code paths of their own
+// (--require-owner builds diagnostics in cmd/pint, every output format at once). A crash of the process is a violation.
+func c02Binary(r *hx.Run, cs c02Case) {
+	bin := hx.PintBin()
+	if bin == "" {
+		return
+	}
+	dir, err := os.MkdirTemp("", "c02b-")
+	if err != nil {
+		panic(err)
+	}
+	defer os.RemoveAll(dir)
+	_ = os.MkdirAll(filepath.Join(dir, "rules"), 0o755)
+	_ = os.WriteFile(filepath.Join(dir, "rules", "r.yml"), cs.bytes(), 0o644)
+	cfg := ""
+	if !cs.Strict {
+		cfg = "parser {\n  relaxed = [\".*\"]\n}\n"
+	}
+	if cs.Thanos {
+		cfg += "parser {\n  schema = \"thanos\"\n}\n"
+		if !cs.Strict {
+			cfg = "parser {\n  relaxed = [\".*\"]\n  schema = \"thanos\"\n}\n"
+		}
+	}
+	_ = os.WriteFile(filepath.Join(dir, ".pint.hcl"), []byte(cfg), 0o644)
+	for _, args := range [][]string{
+		{"--offline", "--no-color", "-l", "error", "lint", "--require-owner", "--json", "o.json", "--checkstyle", "o.xml", "--teamcity", "rules"},
+		{"--offline", "--no-color", "-l", "error", "lint", "--min-severity", "info", "rules"},
+	} {
+		res := hx.RunCmd(dir, 60*time.Second, nil, bin, args...)
+		r.Count("binary-runs")
+		crashed := strings.Contains(res.Stderr, "panic:") || strings.Contains(res.Stderr, "fatal error:") || strings.Contains(res.Stderr, "goroutine 1 [") || res.Exit < 0 || res.Exit > 1
+		if crashed {
+			site := c02Site(res.Stderr)
+			r.Violate(hx.Violation{Class: "binary-crash:" + site, Input: map[string]any{"case": cs, "args": args}, Observed: map[string]any{"exit": res.Exit, "stderr": tail(res.Stderr, 2500)},
+				Expected: "pint lint terminates with exit status 0 or 1 and no Go panic"})
+			return
+		}
+	}
+}
+
 // ---- generators ----
 
+var c02HostileExprs = []string{
+	`up{"a(b"=~"foo"}`, `up{"a.b"="x", "c[d"=~"y"}`, `{"__name__"="up", "x y"!~"z"}`, `up{job=~"a|b", "job*"=~"c"}`, `sum by ("a(b") (up{"a(b"=~"x"})`,
+	`up{job=~""}`, `up{job!~""}`, `foo{a=~"x", a=~"x"}`, `up{"\\"=~"a"}`, `up{"{{"=~"}}"}`, `label_replace(up, "a(b", "$1", "c)d", "(.*")`, `up{"é(ü"=~"ö"} > 0`,
+	`count_values("a(b", up)`, `up offset -5m @ end()`, `up[5m:1s] > 0`, `1 > bool 2`, `-(-up)`, `up{job=~"(?i)x"}`, `up{job=~"x{1,3}"}`, `up{job=~"["}`,
+}
+
+var c02HostileTemplates = []string{
+	`{{ $x := .Labels }}{{ $x := $x }}{{ $x.job }}`, `{{ $a := $b }}`, `{{ $a := .Value }}{{ $b := $a }}{{ $a = $b }}{{ $b }}`,
+	`{{ $labels := $labels }}{{ $labels.job }}`, `{{ $value := $value }}{{ $value }}`, `{{ with $x := .Labels }}{{ with $x := $x }}{{ $x.a }}{{ end }}{{ end }}`,
+	`{{ range $i, $e := .Labels }}{{ $i := $e }}{{ $e := $i }}{{ end }}`, `{{ $v := .Value | humanize }}{{ $v := $v }}{{ $v }}`,
+	`{{ define "x" }}{{ template "x" . }}{{ end }}{{ template "x" . }}`, `{{ $x := query "up" }}{{ $x := $x | first }}{{ $x | value }}`,
+	`{{ printf "%s" $labels }}`, `{{ $labels.job | reReplaceAll "a(" "b" }}`, `{{ index $labels "a(b" }}`, `{{ .Labels }}{{ .Value }}{{ . }}`,
+}
+
 var c02Snippets = []string{
+	"\"\n",
+	"z: 'a\n",
+	"groups:\n- name: g\n  rules:\n  - record: a\n    expr: \"up\n",
+	"groups:\n- name: g\n  rules:\n  - alert: a\n    expr: up == 0\n    annotations:\n      summary: '{{ $x := .Labels }}{{ $x := $x }}{{ $x.job }}'\n",
+	"groups:\n- name: g\n  rules:\n  - alert: a\n    expr: up == 0\n    labels:\n      l: '{{ $a := .Value }}{{ $b := $a }}{{ $a := $b }}{{ $b }}'\n",
+	"groups:\n- name: g\n  rules:\n  - record: a:b\n    expr: up{\"a(b\"=~\"foo\"}\n",
+	"x: \"groups:\\n- name: g\\n  rules:\\n  - record: a\\n    expr: sum(foo) without(\\n\"\ny: 1\n",
 	"groups:\n- name: g\n  rules:\n  - {}\n",
 	"groups:\n- name: g\n  rules:\n  - labels:\n      a: b\n",
 	"groups:\n- name: g\n  rules:\n  - record: a\n    expr: \"\\x75p\"\n",
@@ -207,7 +275,7 @@ func c02Mutate(r *hx.Run, s string) string {
 	rr := r.Rng
 	b := []byte(s)
 	lines := strings.Split(s, "\n")
-	switch rr.Intn(15) {
+	switch rr.Intn(18) {
 	case 0: // delete a line
 		if len(lines) > 1 {
 			k := rr.Intn(len(lines))
@@ -270,6 +338,33 @@ func c02Mutate(r *hx.Run, s string) string {
 			sb.WriteString("  " + l + "\n")
 		}
 		return strings.TrimSuffix(sb.String(), "\n")
+	case 15: // a hostile PromQL expression in place of some value (quoted UTF-8 label names, metacharacters, odd matchers)
+		k := rr.Intn(len(lines))
+		if i := strings.Index(lines[k], "expr: "); i >= 0 {
+			lines[k] = lines[k][:i+6] + hx.Pick(rr, c02HostileExprs)
+		}
+		return strings.Join(lines, "\n")
+	case 16: // a hostile template in place of a label / annotation value
+		k := rr.Intn(len(lines))
+		if i := strings.Index(lines[k], ": "); i >= 0 && !strings.Contains(lines[k], "expr:") && !strings.Contains(lines[k], "record:") && !strings.Contains(lines[k], "alert:") {
+			lines[k] = lines[k][:i+2] + "'" + hx.Pick(rr, c02HostileTemplates) + "'"
+		}
+		return strings.Join(lines, "\n")
+	case 17: // YAML nested in a string, in every scalar style, with and without content after it
+		t := hx.Pick(rr, []string{
+			"x: \"groups:\\n- name: g\\n  rules:\\n  - record: a\\n    expr: sum(foo) without(\\n\"\ny: 1\n",
+			"x: \"- record: a\\n  expr: up\\n- alert: b\\n  expr: up ==\\n\"\nz: 2\n",
+			"x: 'groups:\n\n  - name: g\n\n    rules:\n\n    - record: a\n\n      expr: sum(\n\n'\ny: 1\n",
+			"x: >\n  groups:\n  - name: g\n    rules:\n    - record: a\n      expr: sum(\ny: 1\n",
+			"x: |+\n  - alert: a\n    expr: up ==\n\n\ny: 1\n",
+		})
+		if !strings.HasSuffix(s, "\n") && s != "" {
+			s += "\n"
+		}
+		if rr.Intn(2) == 0 {
+			return t + s
+		}
+		return s + t
 	case 14: // lone CR line breaks in front (YAML counts them as lines)
 		return hx.Pick(rr, []string{"\r", "\r\r", "\r\n\r"}) + s
 	case 10: // tabs
@@ -344,12 +439,20 @@ func runC02(r *hx.Run, replay string) {
 		return
 	}
 	rr := r.Rng
+	nbin, binEvery := 0, 12
+	if r.Tier != "quick" {
+		binEvery = 60
+	}
 	mk := func(content, origin string) {
 		cs := c02Case{Content: content, Strict: rr.Intn(2) == 0, Thanos: rr.Intn(4) == 0, Origin: origin}
 		if !json.Valid([]byte(fmt.Sprintf("%q", content))) || strings.ToValidUTF8(content, "") != content {
 			cs.Hex, cs.Content = fmt.Sprintf("%x", content), ""
 		}
 		c02Eval(r, cs, dir)
+		nbin++
+		if origin == "snippet" || nbin%binEvery == 0 {
+			c02Binary(r, cs)
+		}
 	}
 	corpus := c02Corpus()
 	r.Note("seed corpus: %d YAML documents from the repository", len(corpus))
